@@ -10,6 +10,10 @@
     metadata, logs, tables) and, as tokens, with the Lean model;
 (C) `Export.tsv` parsed back (|parsed - x| <= 6e-11 |x|, NaN/inf textual), source sizes incl.
     1024 and 2048 events with selections of arbitrary size.
+Hierarchy sources are histories: the child's features are accessed, the ancestors' filters are
+moved (same cardinality) and the hierarchy refreshed before the export; the truth is read from a
+freshly built hierarchy. HDF5 sources written with raw h5py trigger every defective-feature marker
+of fmt_hdf5/feat_defect.py; the export has to contain what `ds[feat]` shows.
 Logs are compared content-exact against the lines the harness stored (independently of the writer
 under test); the export must not modify the configuration of the source.
 """
@@ -23,7 +27,10 @@ from . import common, gen
 
 ID = "C02"
 LEAN_MODULES = ["DclabModel.Properties.C02"]
-RULE = ("Logs of the sources are generated (short / > 100 bytes, ASCII and 2-, 3-, 4-byte UTF-8 "
+RULE = ("Hierarchy children come with a history (feature access, 1-3 equal-cardinality filter "
+        "changes of an ancestor, refresh) in 75 % of the cases; 8 defective-feature variants "
+        "(aspect, float32 time, time of old dclab, volume, inert_ratio_* / tilt) x unfiltered / "
+        "all-True / partial filter. Logs of the sources are generated (short / > 100 bytes, ASCII and 2-, 3-, 4-byte UTF-8 "
         "characters, empty lines, empty logs) and written with plain h5py or set in memory, and "
         "compared content-exact; source sizes include powers of two and 1024 / 2048 with selections "
         "of arbitrary residue. A: index lists of length 0..4*cs+1 for cs in 1..7 and 10, both generator paths, eager and "
@@ -342,6 +349,10 @@ def build_source(ctx, case, tag):
                   logs=case.get("logs_content") or {"log_a": ["line 1", "line 2"], "log-b": ["x"]},
                   tables=tables, user={"note": "c02", "number": 3})
         ds = dclab.new_dataset(path)
+    elif base == "defect":
+        path = ctx.workdir / f"src_{tag}.rtdc"
+        make_defect_file(path, toks, case["defect"], case.get("logs_content"))
+        ds = dclab.new_dataset(path)
     elif base == "tdms":
         zp = common.REPO / "tests" / "data" / case["fixture"]
         tdir = ctx.workdir / ("tdms_" + zp.stem)
@@ -354,13 +365,84 @@ def build_source(ctx, case, tag):
     opened.append(ds)
     if "c02_nd" in avail and base in ("dict", "dictna"):
         dclab.set_temporary_feature(ds, "c02_nd", rows_of("c02_nd", toks))
-    # hierarchy levels
-    for pm in case.get("parent_masks", []):
-        ds.filter.manual[:] = np.array(pm, dtype=bool)
-        ds.apply_filter()
-        ds = dclab.new_dataset(ds)
-        opened.append(ds)
-    return ds, opened
+    # hierarchy levels; `history` = earlier filter configurations of the ancestors (same
+    # cardinalities): the hierarchy is built with the first one, its features are accessed, then
+    # the ancestors' filters are moved step by step to the final `parent_masks`, refreshing the
+    # hierarchy after every step
+    final = case.get("parent_masks", [])
+    configs = [c for c in case.get("history", []) if len(c) == len(final)] + [final]
+    chain = [ds]
+    for pm in configs[0]:
+        chain[-1].filter.manual[:] = np.array(pm, dtype=bool)
+        chain[-1].apply_filter()
+        chain.append(dclab.new_dataset(chain[-1]))
+        opened.append(chain[-1])
+    leaf = chain[-1]
+    cur = configs[0]
+    for nxt in configs[1:]:
+        touch(leaf)
+        for lv in range(len(final)):
+            if list(nxt[lv]) != list(cur[lv]):
+                chain[lv].filter.manual[:] = np.array(nxt[lv], dtype=bool)
+                chain[lv].apply_filter()
+                for j in range(lv + 1, len(final)):       # re-establish the filters below
+                    chain[j].rejuvenate()
+                    chain[j].filter.manual[:] = np.array(nxt[j], dtype=bool)
+                    chain[j].apply_filter()
+        leaf.rejuvenate()
+        cur = nxt
+    return leaf, opened
+
+
+def touch(ds):
+    """access every kind of feature once (fills whatever the dataset caches)"""
+    with np.errstate(all="ignore"):
+        for f in ds.features_innate:
+            try:
+                if f == "trace":
+                    for ch in ds["trace"].keys():
+                        if len(ds["trace"][ch]):
+                            np.array(ds["trace"][ch][0])
+                elif len(ds[f]):
+                    np.array(ds[f][0])
+                    np.array(ds[f][len(ds[f]) - 1])
+            except Exception:
+                pass
+
+
+#: stored-but-defective scalar features (fmt_hdf5/feat_defect.py): variant -> (software version,
+#: roi size x, dtype of "time", features stored with junk values)
+DEFECT_VARIANTS = {
+    "aspect": ("ShapeIn 2.0.6", 16, "f8", ["aspect"]),
+    "aspect207-time32": ("ShapeIn 2.0.7", 16, "f4", ["aspect", "time"]),
+    "time32": ("verif 1.0", 16, "f4", ["time"]),
+    "time-old-dclab": ("ShapeIn 2.4.1 | dclab 0.47.0", 16, "f8", ["time"]),
+    "volume": ("ShapeIn 2.0.4 | dclab 0.36.1", 16, "f8", ["volume"]),
+    "inert-old-shapein": ("ShapeIn 2.0.4 | dclab 0.48.1", 600, "f8",
+                          ["inert_ratio_prnc", "tilt", "inert_ratio_raw", "inert_ratio_cvx"]),
+    "inert-new-shapein": ("ShapeIn 2.4.1 | dclab 0.48.2", 600, "f8",
+                          ["inert_ratio_prnc", "tilt", "inert_ratio_raw", "inert_ratio_cvx", "time"]),
+    "inert-other-software": ("otherware 1.0 | dclab 0.48.0", 600, "f8",
+                             ["inert_ratio_raw", "inert_ratio_cvx", "volume", "aspect"]),
+}
+DEFECT_BASE = ["deform", "area_um", "size_x", "size_y", "frame", "pos_x", "pos_y"]
+DEFECT_FEATS = ["aspect", "time", "volume", "inert_ratio_prnc", "tilt", "inert_ratio_raw",
+                "inert_ratio_cvx"]
+
+
+def make_defect_file(path, toks, variant, logs=None):
+    """hdf5 source in which some stored features are marked defective by dclab; their stored
+    values are junk, so an export has to contain what `ds[feat]` shows (recomputed / absent)"""
+    import h5py
+    sv, roix, tdtype, junk = DEFECT_VARIANTS[variant]
+    make_file(path, toks, DEFECT_BASE, logs=logs)
+    with h5py.File(path, "a") as h5:
+        for f in junk:
+            vals = np.array([1000.0 + 3 * t for t in toks])
+            h5["events"].create_dataset(f, data=vals.astype(tdtype if f == "time" else "f8"))
+        h5.attrs["setup:software version"] = sv
+        h5.attrs["imaging:roi size x"] = roix
+    return path
 
 
 def feat_len(ds, f):
@@ -469,7 +551,14 @@ def _run_export(ctx, case, tag, res):
         ds.apply_filter()
         mask = np.array(ds.filter.all, dtype=bool)
         req = list(case["req"])
+        if case.get("drop_missing"):
+            req = [f for f in req if f in ds]
         filtered = bool(case["filtered"])
+        fresh = ds
+        if case.get("history"):       # the truth comes from a hierarchy without any history
+            fresh, op2 = build_source(ctx, dict(case, history=[]), tag + "f")
+            opened += op2
+            res["stats"].append("B:hierarchy-history")
         present = [f for f in dict.fromkeys(req) if f in ds]
         missing = [f for f in dict.fromkeys(req) if f not in ds]
         mfeats = expand(sorted(set(req)), ds)
@@ -479,7 +568,7 @@ def _run_export(ctx, case, tag, res):
         L.append("sections " + ",".join(name_ok(s) for s in sections))
         src_rows = {}
         for f in expand(present, ds):
-            rows = get_rows(ds, f)
+            rows = get_rows(fresh, f)
             src_rows[f] = rows
             obj = ds["trace"][f[6:]] if f.startswith("trace/") else ds[f]
             sl = 1 if hasattr(obj, "__array__") else 0
@@ -672,7 +761,8 @@ def make_mask(rng, n, kind, cs):
 def random_case(ctx, i, thorough_tdms=False):
     rng = ctx.rng
     kind = rng.choice(["dict", "dictna", "hdf5", "hdf5", "short", "child-dict", "child-hdf5",
-                       "child-child-hdf5", "child-child-dict"])
+                       "child-child-hdf5", "child-child-dict", "defect", "child-hdf5",
+                       "child-child-dict"])
     cs = rng.choice([1, 2, 3, 4, 5, 7, None])
     ce = 10 if cs is None else cs
     n = rng.randint(5, 36 if cs is None or cs > 3 else 16)
@@ -697,6 +787,12 @@ def random_case(ctx, i, thorough_tdms=False):
             pm = [1] * cur
         case["parent_masks"].append(pm)
         cur = sum(pm)
+    if kind.count("child") and rng.random() < 0.75:
+        case["history"] = make_history(rng, case["parent_masks"])
+    if kind == "defect":
+        case["defect"] = rng.choice(sorted(DEFECT_VARIANTS))
+        case["avail"] = avail = DEFECT_BASE + DEFECT_FEATS
+        case["drop_missing"] = int(rng.random() < 0.85)
     pool = [f for f in avail]
     k = rng.randint(1, len(pool))
     req = rng.sample(pool, k)
@@ -714,7 +810,28 @@ def random_case(ctx, i, thorough_tdms=False):
     case["skip"] = int(rng.random() < 0.15 and not kind.endswith("short"))
     case["mask"] = make_mask(rng, cur, rng.choice(["empty", "full", "single", "random", "random",
                                                    "kcs-1", "kcs", "kcs+1"]), ce)
+    if kind == "defect" and rng.random() < 0.5:
+        case["mask"] = [1] * cur                 # all-True filter on hdf5: the unfiltered route
     return no_unfiltered_nonsliceable(case)
+
+
+def make_history(rng, final):
+    """earlier filter configurations of the ancestors: each differs from its successor in ONE
+    level, where another selection of the SAME cardinality was active"""
+    configs = []
+    cur = [list(m) for m in final]
+    for _ in range(rng.randint(1, 3)):
+        lv = rng.randrange(len(cur))
+        prev = [list(m) for m in cur]
+        m = list(cur[lv])
+        for _try in range(5):
+            rng.shuffle(m)
+            if m != cur[lv]:
+                break
+        prev[lv] = m
+        configs.insert(0, prev)
+        cur = prev
+    return configs
 
 
 def big_cases(ctx):
@@ -769,7 +886,17 @@ def fixed_cases():
                                       "log-b": ["\U0001F600" * 30 + "abc"], "none": []}}
                 if kind == "short":
                     c["short"] = {"image": 2}
+                if pms:       # the ancestors selected other events (same number) before
+                    c["history"] = [[list(reversed(m)) for m in pms],
+                                    [list(reversed(pms[0]))] + [list(m) for m in pms[1:]]]
                 out.append(no_unfiltered_nonsliceable(c))
+    for variant in sorted(DEFECT_VARIANTS):
+        for filt, mask in ((0, [1] * 12), (1, [1] * 12), (1, [1, 0, 1] * 4)):
+            out.append({"kind": "defect", "defect": variant, "toks": toks,
+                        "avail": DEFECT_BASE + DEFECT_FEATS, "cs": 3, "parent_masks": [],
+                        "req": DEFECT_FEATS + ["deform", "frame"], "drop_missing": 1,
+                        "filtered": filt, "logs": 0, "tables": 0, "skip": 0, "mask": mask,
+                        "with_tables": False})
     base = {"kind": "hdf5", "toks": toks, "avail": avail, "cs": 2, "parent_masks": [],
             "filtered": 1, "logs": 0, "tables": 0, "skip": 0, "with_tables": False,
             "mask": [1, 0, 1, 1, 0, 1, 1, 1, 0, 1, 1, 1]}
@@ -845,7 +972,10 @@ def part_b(ctx):
         ctx.stat("B:kind=" + case["kind"])
         canon = (case["kind"], tuple(case["toks"]), tuple(case["req"]), tuple(case["mask"]),
                  case["filtered"], case["cs"], case["logs"], case["tables"],
-                 tuple(map(tuple, case["parent_masks"])))
+                 tuple(map(tuple, case["parent_masks"])), case.get("defect"),
+                 repr(case.get("history")))
+        if case.get("defect"):
+            ctx.stat("B:defect=" + case["defect"])
         ctx.case(canon, nontrivial=res["nontrivial"],
                  sample={"part": "B", "case": {k: case[k] for k in ("kind", "req", "mask", "cs",
                                                                     "filtered")},
